@@ -56,6 +56,7 @@ type Ctx struct {
 	sets       map[string]map[string]bool
 	vio        map[string]*Violation
 	ownScratch bool
+	sampleKinds map[string]bool
 }
 
 func newCtx(name string, seed int64, tier string, batch, of int, replay, caselog, scratch string) *Ctx {
@@ -142,6 +143,18 @@ func (c *Ctx) AddSet(name string, k string) {
 		c.sets[name] = map[string]bool{}
 	}
 	c.sets[name][k] = true
+}
+
+// SampleKind keeps one sample per kind (at most 6 kinds).
+func (c *Ctx) SampleKind(kind string, s interface{}) {
+	if c.sampleKinds == nil {
+		c.sampleKinds = map[string]bool{}
+	}
+	if c.sampleKinds[kind] || len(c.sampleKinds) >= 6 {
+		return
+	}
+	c.sampleKinds[kind] = true
+	c.Res.Samples = append(c.Res.Samples, s)
 }
 
 func (c *Ctx) Sample(s interface{}) {
